@@ -612,18 +612,48 @@ fn parse_set_value(kind: ScalarKind, input: &str) -> anyhow::Result<Vec<u8>> {
     }
 
     match kind {
-        ScalarKind::I8 => Ok(vec![(parse_int_i128(s)? as i8) as u8]),
-        ScalarKind::U8 => Ok(vec![parse_int_u128(s)? as u8]),
-        ScalarKind::I16 => Ok((parse_int_i128(s)? as i16).to_le_bytes().to_vec()),
-        ScalarKind::U16 => Ok((parse_int_u128(s)? as u16).to_le_bytes().to_vec()),
-        ScalarKind::I32 => Ok((parse_int_i128(s)? as i32).to_le_bytes().to_vec()),
-        ScalarKind::U32 => Ok((parse_int_u128(s)? as u32).to_le_bytes().to_vec()),
-        ScalarKind::I64 => Ok((parse_int_i128(s)? as i64).to_le_bytes().to_vec()),
-        ScalarKind::U64 => Ok((parse_int_u128(s)? as u64).to_le_bytes().to_vec()),
+        // a value that doesn't fit the variable type must be refused, not truncated
+        ScalarKind::I8 => Ok(i8::try_from(parse_int_i128(s)?)
+            .context("i8 out of range")?
+            .to_le_bytes()
+            .to_vec()),
+        ScalarKind::U8 => Ok(vec![
+            u8::try_from(parse_int_u128(s)?).context("u8 out of range")?,
+        ]),
+        ScalarKind::I16 => Ok(i16::try_from(parse_int_i128(s)?)
+            .context("i16 out of range")?
+            .to_le_bytes()
+            .to_vec()),
+        ScalarKind::U16 => Ok(u16::try_from(parse_int_u128(s)?)
+            .context("u16 out of range")?
+            .to_le_bytes()
+            .to_vec()),
+        ScalarKind::I32 => Ok(i32::try_from(parse_int_i128(s)?)
+            .context("i32 out of range")?
+            .to_le_bytes()
+            .to_vec()),
+        ScalarKind::U32 => Ok(u32::try_from(parse_int_u128(s)?)
+            .context("u32 out of range")?
+            .to_le_bytes()
+            .to_vec()),
+        ScalarKind::I64 => Ok(i64::try_from(parse_int_i128(s)?)
+            .context("i64 out of range")?
+            .to_le_bytes()
+            .to_vec()),
+        ScalarKind::U64 => Ok(u64::try_from(parse_int_u128(s)?)
+            .context("u64 out of range")?
+            .to_le_bytes()
+            .to_vec()),
         ScalarKind::I128 => Ok(parse_int_i128(s)?.to_le_bytes().to_vec()),
         ScalarKind::U128 => Ok(parse_int_u128(s)?.to_le_bytes().to_vec()),
-        ScalarKind::Isize => Ok((parse_int_i128(s)? as isize).to_le_bytes().to_vec()),
-        ScalarKind::Usize => Ok((parse_int_u128(s)? as usize).to_le_bytes().to_vec()),
+        ScalarKind::Isize => Ok(isize::try_from(parse_int_i128(s)?)
+            .context("isize out of range")?
+            .to_le_bytes()
+            .to_vec()),
+        ScalarKind::Usize => Ok(usize::try_from(parse_int_u128(s)?)
+            .context("usize out of range")?
+            .to_le_bytes()
+            .to_vec()),
         ScalarKind::F32 => Ok(s
             .parse::<f32>()
             .context("f32 parse")?
@@ -658,7 +688,7 @@ fn parse_set_value(kind: ScalarKind, input: &str) -> anyhow::Result<Vec<u8>> {
                 let u = s.chars().next().unwrap() as u32;
                 Ok(u.to_le_bytes().to_vec())
             } else {
-                let u = parse_int_u128(s)? as u32;
+                let u = u32::try_from(parse_int_u128(s)?).context("char code out of range")?;
                 Ok(u.to_le_bytes().to_vec())
             }
         }
